@@ -1,8 +1,8 @@
 SPECIFICATION Spec
 CONSTANTS
-  CliChunks <- CliNoEnd
-  SrvChunks <- SrvNoCfg
-  Confirm = FALSE
+  CliChunks <- Cli2R
+  SrvChunks <- Srv2R
+  Confirm = TRUE
   Recheck = TRUE
   FlushFirst = TRUE
 INVARIANTS Order NothingLost ParkOnlyWhileHandshaking JunkIsBeforeLine
